@@ -41,6 +41,9 @@ CHECKS = {
  "C01": dict(technique="CrossHair symbolic execution of the eight step classes' apply() with all integer fields symbolic and payloads a symbolic catalogue index; outcome judged by a validator derived from the spec dictionaries",
              text="On every catalogue document, for ReplaceStep, ReplaceAroundStep (gap or outer positions symbolic), Add/RemoveMarkStep, Add/RemoveNodeMarkStep, AttrStep and DocAttrStep with every in-range ordered combination of positions and every catalogue payload, each path ends in a failed result, a ValueError-family exception or a document the independent validator accepts (content expressions, allowed marks, canonical mark sets, attrs); thorough also decodes each step from its JSON first.",
              ref="4/C01"),
+ "C11": dict(technique="CrossHair symbolic execution of Transform.replace/replace_with/insert/delete/replace_range/replace_range_with/delete_range (Fitter, covered_depths, close_fragment, insert_point) with symbolic range ends and payload index / second-document cut positions; spec-derived validator and token-level content-preservation oracle",
+             text="For every catalogue document of the bundled, list, strict, title, fixed, isolating and table schemas, every in-range ordered range and every catalogue slice/node (thorough: also slices cut at two symbolic positions from a second document) each path of the seven replace-family operations ends without any exception, with a valid document, the text/leaf sequence before and after the range intact and the content in between an in-order subsequence of the inserted content (empty for deletes).",
+             ref="4/C11"),
 }
 CHECKS_END = None
 
